@@ -633,6 +633,8 @@ func (r *runner) runCase(c caseJSON) {
 		r.runMemo(c)
 	case "conf":
 		r.runConf(c)
+	case "config", "run":
+		r.runConfigCase(c)
 	default:
 		r.dist.Inc("unknown-kind")
 	}
@@ -686,6 +688,7 @@ func Run(cfg vh.Config) (*vh.Result, error) {
 			r.dist.Inc("corpus")
 		}
 		r.generateModelled()
+		r.generateConfigCases()
 		r.generateConfs()
 	}
 	r.flush()
